@@ -100,12 +100,14 @@ META.update({
         note="match_row_to_acl's exclusivity iff is proved relative to _find_acl_matches / merge_dicts (assumed); TreeGenerator bookkeeping bounded only",
     ),
     "C11": dict(
-        technique=_B + "; no deductive obligations (collapse/expand and _process_vlandb use sorted(set()), string rendering and chunk comprehensions outside the VC subset)",
-        text="exploration: through the real shipped huawei/cisco/nexus rulebooks and make_patch, for 10 VLAN-list rule kinds: all pairs of subsets of "
+        technique="contract-based deductive verification of collapse_vlandb and its cisco / huawei wrappers (AST->VC, loop invariant, z3+cvc5) + lemma 'the produced ranges denote exactly the sorted distinct VLANs'; " + _B + " for the logic functions",
+        text="exploration + proved links: collapse_vlandb is proved equal to the rendering of the run-length ranges of sorted(set(vlans)) "
+             "(tiny_ranges honoured), AssertionError iff the input is empty; lemmas prove that a VLAN is denoted by those ranges iff it is a "
+             "member of the input and that every range has lo <= hi. Everything else is bounded: through the real shipped huawei/cisco/nexus rulebooks and make_patch, for 10 VLAN-list rule kinds: all pairs of subsets of "
              "a 5-element universe x every splitting over 1-4 lines (quick; thorough up to 8 elements), strided 65,536-pair sweep, random sets of "
              "1..4094: simulated final set == new set, no VLAN of old&new removed even transiently, expand(collapse(S)) == S. 1 known finding "
              "(multi_all `undo ... all` wipes VLANs of unchanged lines).",
-        note="bounded stand-in only",
+        note="expand functions (int() of substrings), _process_vlandb / vlan_diff, chunking: bounded only; sorted(set()) axiom assumed",
     ),
     "C16": dict(
         technique="effect obligations inferred from the real source of all 49 shipped %logic functions (does not read the UNCHANGED bucket), proved contracts of strip_unchanged / mark_unchanged / the common logic functions + lemma unchanged_bucket_is_not_read; " + _B + " comparing both front ends",
